@@ -29,6 +29,7 @@ TECHNIQUE += '; models built by the g2e ANTLR actions (interpreted, composed as 
 LEVEL_TEXT += ' Added clause: ANTLR-translated models keep operator/operand binding when printed (name=~x, ~~x, ~( a | b )).'
 TECHNIQUE += '; every join kind over multi-line operands'
 TECHNIQUE += "; blanks and tabs in patterns and regex directives; printers interpreted with the repository's trim()"
+TECHNIQUE += '; multi-line leaves under every indenting wrapper; string parameters spelled like the constants of the grammar language; the railroad walker and railmath interpreted on stand-in models: completes, one display width per drawing (C13.R6)'
 LEVEL_NOTE = ('Trusted: the checker\'s reader of the grammar language (validated on every run by C15: it reads tatsu/_tatsu.ebnf to the '
               'same IR as the shipped generated parser).')
 EXPLANATION = ('Static analysis of /repo sources, TatSu not imported. _pretty methods are interpreted by the whitelisted evaluator on '
